@@ -263,9 +263,14 @@ fn gen_points(rng: &mut Rng, tier: Tier) -> Sc {
             order.sort_by(|&a, &b| pts[a][ax].partial_cmp(&pts[b][ax]).unwrap().then(a.cmp(&b)));
         }
     }
-    let radius = match rng.below(4) {
-        0 => spacing, // exactly the lattice spacing: ties at r
-        1 => spacing * 2f64.sqrt(),
+    let radius = match rng.below(16) {
+        0 | 1 | 2 | 3 => spacing, // exactly the lattice spacing: ties at r
+        4 | 5 | 6 | 7 => spacing * 2f64.sqrt(),
+        // extremes: a radius that only exact duplicates fall inside, and one that swallows everything
+        // (not below 1e-150: the library compares squared distances, and a radius whose square
+        // underflows to zero is outside the tested domain)
+        8 => *rng.pick(&[1e-17, 1e-100, 1e-30, 1e-12]),
+        9 => spacing * 1e6,
         _ => spacing * rng.log_uniform(0.3, 4.0),
     };
     let nq = 4 + rng.below(if tier == Tier::Quick { 12 } else { 40 });
